@@ -192,8 +192,8 @@ func (x *c04ctx) entropy() {
 	idField := ""
 	if getID != nil {
 		ir.EachInstr(getID, func(_ *ssa.BasicBlock, _ int, in ssa.Instruction) {
-			if r, ok := in.(*ssa.Return); ok && len(r.Results) == 1 {
-				if f, _, ok := ir.LoadedField(r.Results[0]); ok {
+			if r, ok := in.(*ssa.Return); ok && len(ir.Results(r)) == 1 {
+				if f, _, ok := ir.LoadedField(ir.Results(r)[0]); ok {
 					idField = f.Key()
 				}
 			}
@@ -305,10 +305,10 @@ func generatorOK(gen *ssa.Function) (bool, string) {
 	why := ""
 	ir.EachInstr(gen, func(_ *ssa.BasicBlock, _ int, in ssa.Instruction) {
 		r, isRet := in.(*ssa.Return)
-		if !isRet || len(r.Results) == 0 {
+		if !isRet || len(ir.Results(r)) == 0 {
 			return
 		}
-		oc := originCall(r.Results[0])
+		oc := originCall(ir.Results(r)[0])
 		if oc == nil || !asciiEncoders[ir.CallName(oc)] {
 			okRet, why = false, "the returned id is not produced by an allow-listed ASCII encoder (hex/base64/base32) of the random buffer"
 			return
